@@ -54,58 +54,37 @@ Definition append_segs (t : fstree) (p : fpath) (l : list seg) : fstree :=
   {| t_dirs := t_dirs t;
      t_files := map (fun e => if path_eqb p (fst e) then (fst e, (snd e ++ l)%list) else e) (t_files t) |}.
 
-Inductive cnode := NDir (p : fpath) | NGet.         (* NGet: the root's ".arvados#collection" getternode *)
-Definition s_getter : string := ".arvados#collection".
-
-(* the loop over names[:len(names)-1] in createFileAndParents; None = error *)
-Fixpoint walk_dirs (t : fstree) (node : cnode) (names : list string) : option (fstree * cnode) :=
+(* the loop over names[:len(names)-1] in createFileAndParents; None = error.  (dirnode.Child's special case for
+   ".arvados#collection" does not apply here: fs.root is still nil while loadManifest runs.) *)
+Fixpoint walk_dirs (t : fstree) (node : fpath) (names : list string) : option (fstree * fpath) :=
   match names with
   | [] => Some (t, node)
   | name :: r =>
       if String.eqb name "" || String.eqb name "." then walk_dirs t node r
       else if String.eqb name ".." then
         match node with
-        | NDir [] => None                                        (* node == dn: ErrInvalidArgument *)
-        | NDir p => walk_dirs t (NDir (removelast p)) r
-        | NGet => walk_dirs t (NDir []) r
+        | [] => None                                             (* node == dn: ErrInvalidArgument *)
+        | _ => walk_dirs t (removelast node) r
         end
       else
-        match node with
-        | NGet => None                                           (* getternode.Child: ErrInvalidArgument *)
-        | NDir p =>
-            match p with
-            | [] => if String.eqb name s_getter then walk_dirs t NGet r
-                    else let q := [name] in
-                         if is_file t q then None else walk_dirs (add_dir t q) (NDir q) r
-            | _ => let q := (p ++ [name])%list in
-                   if is_file t q then None                      (* ErrFileExists *)
-                   else walk_dirs (add_dir t q) (NDir q) r
-            end
-        end
+        let q := (node ++ [name])%list in
+        if is_file t q then None                                 (* ErrFileExists *)
+        else walk_dirs (add_dir t q) q r
   end.
 
 (* createFileAndParents: None = error; Some (t, None) = "(nil, nil)"; Some (t, Some p) = file node p *)
 Definition create_file_and_parents (t : fstree) (path : string) : option (fstree * option fpath) :=
   let names := split_on c_slash path in
   let basename := last_str names "" in
-  match walk_dirs t (NDir []) (removelast names) with
+  match walk_dirs t [] (removelast names) with
   | None => None
   | Some (t1, node) =>
       if String.eqb basename "." then Some (t1, None)
       else if String.eqb basename "" || String.eqb basename ".." then None          (* !permittedName *)
       else
-        match node with
-        | NGet => None
-        | NDir p =>
-            match p with
-            | [] => if String.eqb basename s_getter then Some (t1, None)
-                    else let q := [basename] in
-                         if is_dir t1 q then None else Some (add_file t1 q, Some q)
-            | _ => let q := (p ++ [basename])%list in
-                   if is_dir t1 q then None                       (* ErrIsDirectory *)
-                   else Some (add_file t1 q, Some q)
-            end
-        end
+        let q := (node ++ [basename])%list in
+        if is_dir t1 q then None                                 (* ErrIsDirectory *)
+        else Some (add_file t1 q, Some q)
   end.
 
 (* ---------- loadManifest ---------- *)
